@@ -16,6 +16,7 @@ import (
 var propPkgs = map[string][]string{
 	"C12": {"pkg/convert"},
 	"C11": {"pkg/encoding"},
+	"C05": {"banyand/internal/snapshot"},
 }
 
 type Finding struct {
